@@ -6,9 +6,11 @@
 //!   (ident "a" @L:C) (at "media" @..) (hash "x" @..) (idhash "x" @..) (str "s" @..) (url "u" @..)
 //!   (delim "." @..) (num SIGN "TEXT" BITS INT @..) (pct SIGN "TEXT" BITS INT @..)
 //!   (dim SIGN "TEXT" BITS INT "unit" @..) (ws "raw" @..) (comment "text" @..)
-//!   (colon) (semi) (comma) (incl) (dash) (prefix) (suffix) (substr) (cdo) (cdc)
-//!   (fn "name" CHILDREN.. @..) (paren ..) (square ..) (curly ..)
-//!   (badurl "x") (badstr "x") (closeparen) (closesquare) (closecurly)
+//!   (colon @..) (semi @..) (comma @..) (incl @..) (dash @..) (prefix @..) (suffix @..) (substr @..)
+//!   (cdo @..) (cdc @..) (fn "name" CHILDREN.. @..) (paren CHILDREN.. @..) (square ..) (curly ..)
+//!   (badurl "x" @..) (badstr "x" @..) (closeparen @..) (closesquare @..) (closecurly @..)
+//!   SIGN = + | - | n (no explicit sign); "TEXT" = `{}` of the f32 (pct: of unit_value);
+//!   BITS = f32::to_bits in decimal; INT = int_value | none
 //! Extra keys (not part of the S-expressions): `source` echoes the input; `closers_in`,
 //! `closers_normal`, `closers_low` list `[openLine, openCol, closeLine, closeCol, closed]` for every
 //! block (position of the closing bracket; closed = 0 if the block runs to the end of the text).
